@@ -366,6 +366,8 @@ pub fn h2c_backend(listener: TcpListener) {
             acc.drain(..24);
             let _ = s.write_all(&settings(&[]));
             let _ = s.write_all(&frame(T_WU, 0, 0, &(1u32 << 24).to_be_bytes()));
+            let mut owed_conn = 0u32;
+            let mut owed_stream: std::collections::HashMap<u32, u32> = std::collections::HashMap::new();
             loop {
                 let (frames, used) = parse_frames(&acc);
                 acc.drain(..used);
@@ -379,10 +381,17 @@ pub fn h2c_backend(listener: TcpListener) {
                         }
                         T_HEADERS | T_DATA => {
                             if f.t == T_DATA && !f.payload.is_empty() {
-                                let inc = (f.payload.len() as u32).to_be_bytes();
-                                let _ = s.write_all(&frame(T_WU, 0, 0, &inc));
-                                if f.flags & 1 == 0 {
-                                    let _ = s.write_all(&frame(T_WU, 0, f.sid, &inc));
+                                // credit back in batches: one WINDOW_UPDATE per tiny DATA frame would be a flood
+                                owed_conn += f.payload.len() as u32;
+                                let e = owed_stream.entry(f.sid).or_insert(0u32);
+                                *e += f.payload.len() as u32;
+                                if f.flags & 1 == 0 && *e >= 16384 {
+                                    let _ = s.write_all(&frame(T_WU, 0, f.sid, &e.to_be_bytes()));
+                                    *e = 0;
+                                }
+                                if owed_conn >= 32768 {
+                                    let _ = s.write_all(&frame(T_WU, 0, 0, &owed_conn.to_be_bytes()));
+                                    owed_conn = 0;
                                 }
                             }
                             if f.flags & 1 != 0 {
